@@ -14,6 +14,9 @@
 //!         probe item is appended and read back; the main history continues from the uncut state)
 //!   cut <idxLen> <fid> <len|rm>         -> ok          (destructive: the handle is dropped, the
 //!                                                       directory is cut; an `open` follows)
+//!
+//! Stream `top` (`vh-core C09 top`, model args `C09 top`): the layer above, the real
+//! `ckb_freezer::Freezer` — see `mod top` at the end of this file for its protocol.
 use crate::common::*;
 use ckb_freezer::FreezerFilesBuilder;
 use std::fs;
@@ -600,19 +603,33 @@ fn unhex(s: &str) -> Vec<u8> {
     (0..s.len() / 2).map(|i| u8::from_str_radix(&s[2 * i..2 * i + 2], 16).unwrap()).collect()
 }
 
+/// corpus files are offered to every stream: `top` cases carry a label starting with `top`
+fn replay_is_top(ops: &[String]) -> bool {
+    ops.first().map(|l| l.split_whitespace().nth(2).unwrap_or("").starts_with("top")).unwrap_or(false)
+}
+
 pub fn run(opts: &Opts) {
+    let is_top = opts.extra.first().map(|s| s == "top").unwrap_or(false);
     let mut out = Out::new(&opts.out);
     // scratch directories for the real freezer: tmpfs when available (fsync-heavy), else under --out
     let shm = std::path::Path::new("/dev/shm");
     let base = if std::env::var("VERIF_NO_SHM").is_err() && shm.is_dir() {
-        shm.join(format!("verif-c09-{}", std::process::id()))
+        shm.join(format!("verif-c09-{}{}", if is_top { "top-" } else { "" }, std::process::id()))
     } else {
         opts.out.join("fs")
     };
+    if is_top {
+        let rule = top::run(opts, &mut out, &base);
+        let _ = fs::remove_dir_all(&base);
+        out.finish(rule);
+        return;
+    }
     let mut rng = Rng::new(opts.seed);
     if let Some(p) = &opts.replay {
         let ops = read_replay_ops(p);
-        replay_case(&mut out, &base, &ops);
+        if !replay_is_top(&ops) {
+            replay_case(&mut out, &base, &ops);
+        }
     } else {
         let (cases, n_ops) = if opts.thorough() { (400 * opts.scale, 30) } else { (40 * opts.scale, 14) };
         for c in 0..cases {
@@ -623,4 +640,922 @@ pub fn run(opts: &Opts) {
     }
     let _ = fs::remove_dir_all(&base);
     out.finish("random append/truncate/reopen histories on the real FreezerFiles (compression off, max_file_size 20..100 bytes, item sizes biased to the rollover boundary); after every append every (index length, head-file length | missing) cut pair between the pre- and post-append sizes is materialised on a copy and re-opened; batches of 2-4 unsynced appends are cut anywhere between the pre-batch and final sizes (entry boundaries +-1, random points); a case is non-trivial iff it contains a rollover and at least one cut; distinct by (max, item-length list)");
+}
+
+/// Stream `top`: the real `ckb_freezer::Freezer` (freezer/src/freezer.rs) — `open` on a directory,
+/// `freeze` fed with real packed `BlockView`s, `truncate`, `retrieve`, `number` — with real snappy
+/// compression (the only mode `Freezer::open` has), a tiny `max_file_size` and a small handle-LRU
+/// capacity (hook `Freezer::verif_set_limits`, called right after the real `Freezer::open`; both
+/// values are read by later operations only) so that data files roll over every few blocks and read
+/// handles are evicted.
+///
+/// Protocol (model side: lean/CkbVerif/Driver/C09Top.lean).  `<slot>` is empty (the main freezer)
+/// or the prefix `alt ` (a forked copy of a snapshot of the main directory):
+///   cfg <max_file_size>                           -> ok
+///   blk <id> <parent-id> <hdr-number> <ntx> <hex>  -> ok      declares a block; <hex> = the bytes
+///        snappy produces for `block.data()` (what is stored; the real block is rebuilt from it on replay)
+///   [alt ]open                                    -> ok <number> <tip-id|-> | err
+///   [alt ]freeze <thr> <stop> <start> <ids|->     -> ok <id:n:ntx,..|-> <number> <tip> | err <number> <tip>
+///        get_block_by_number(h) = ids[h-start] (id 0 or outside the list = None);
+///        <stop> = `-` | `pre` (flag set before the call) | k (flag set while serving height k)
+///   [alt ]retrieve <i>                            -> some <id> | some ? | none | err
+///   [alt ]truncate <i>                            -> ok <number> <tip> | err
+///   [alt ]dump                                    -> n=<number> tip=<id|-> items=<id;..|-> idx=<fid:off,..>+<tail>
+///   snap                                          -> ok      snapshot of the main directory
+///   fork <idxLen> <fid> <len|rm>                  -> ok      alt := snapshot cut to these lengths (closed)
+///   cut <idxLen> <fid> <len|rm>                   -> ok      main directory cut (closed); `open` follows
+///   same                                          -> same | diff   alt and main hold the same content
+mod top {
+    use super::{apply_cut, copy_dir, file_name, read_index, unhex};
+    use crate::common::*;
+    use ckb_freezer::Freezer;
+    use ckb_types::bytes::Bytes;
+    use ckb_types::core::{BlockBuilder, BlockView, EpochNumberWithFraction, TransactionBuilder};
+    use ckb_types::packed;
+    use ckb_types::prelude::*;
+    use std::collections::HashMap;
+    use std::fs;
+    use std::path::{Path, PathBuf};
+    use std::sync::atomic::Ordering;
+
+    pub struct Blk {
+        pub parent: u64,
+        pub ntx: u32,
+        pub view: BlockView,
+        pub raw: Vec<u8>,
+    }
+
+    #[derive(Clone, Copy, PartialEq, Debug)]
+    pub enum Stop {
+        No,
+        Pre,
+        At(u64),
+    }
+
+    struct Slot {
+        dir: PathBuf,
+        f: Option<Freezer>,
+        /// ground truth for the oracle: ids of the blocks that must be stored at heights 1..
+        expect: Vec<u64>,
+        /// how many of them a pending re-open must keep (they survived the cut completely)
+        min_keep: usize,
+    }
+
+    pub struct Sim {
+        max: u64,
+        limit: usize,
+        blks: Vec<Blk>,
+        by_hash: HashMap<packed::Byte32, u64>,
+        by_raw: HashMap<Vec<u8>, u64>,
+        genesis: BlockView,
+        main: Slot,
+        alt: Slot,
+        snap_dir: PathBuf,
+        snap_expect: Vec<u64>,
+        pub rollovers: usize,
+        pub forks: usize,
+        pub errs: usize,
+    }
+
+    fn id_or_dash(i: Option<u64>) -> String {
+        i.map(|x| x.to_string()).unwrap_or("-".into())
+    }
+
+    fn cut_str(l: Option<u64>) -> String {
+        l.map(|l| l.to_string()).unwrap_or("rm".into())
+    }
+
+    impl Sim {
+        pub fn new(base: &Path, max: u64, limit: usize) -> Sim {
+            let _ = fs::remove_dir_all(base);
+            let main = base.join("main");
+            fs::create_dir_all(&main).unwrap();
+            let slot = |d: PathBuf| Slot { dir: d, f: None, expect: vec![], min_keep: 0 };
+            Sim {
+                max,
+                limit,
+                blks: vec![],
+                by_hash: HashMap::new(),
+                by_raw: HashMap::new(),
+                genesis: BlockBuilder::default().number(0u64).build(),
+                main: slot(main),
+                alt: slot(base.join("alt")),
+                snap_dir: base.join("snap"),
+                snap_expect: vec![],
+                rollovers: 0,
+                forks: 0,
+                errs: 0,
+            }
+        }
+
+        pub fn hash_of(&self, id: u64) -> packed::Byte32 {
+            if id == 0 { self.genesis.hash() } else { self.blks[id as usize - 1].view.hash() }
+        }
+
+        pub fn n_blocks(&self) -> u64 {
+            self.blks.len() as u64
+        }
+
+        pub fn main_expect(&self) -> &[u64] {
+            &self.main.expect
+        }
+
+        pub fn main_open(&self) -> bool {
+            self.main.f.is_some()
+        }
+
+        pub fn alt_open(&self) -> bool {
+            self.alt.f.is_some()
+        }
+
+        pub fn main_dir(&self) -> &Path {
+            &self.main.dir
+        }
+
+        pub fn snap_dir(&self) -> &Path {
+            &self.snap_dir
+        }
+
+        fn register(&mut self, out: &mut Out, parent: u64, view: BlockView) -> u64 {
+            let raw = view.data().as_slice().to_vec();
+            let cmp = snap::raw::Encoder::new().compress_vec(&raw).unwrap();
+            let id = self.blks.len() as u64 + 1;
+            let ntx = view.transactions().len() as u32;
+            out.op(&format!("blk {} {} {} {} {}", id, parent, view.number(), ntx, hex(&cmp)), "ok");
+            self.by_hash.insert(view.hash(), id);
+            self.by_raw.insert(raw.clone(), id);
+            self.blks.push(Blk { parent, ntx, view, raw });
+            id
+        }
+
+        /// a fresh real block on `parent` (0 = a pseudo genesis); `sizes` = output-data length per tx
+        pub fn new_block(&mut self, out: &mut Out, rng: &mut Rng, parent: u64, number: u64, sizes: &[usize], ext: bool) -> u64 {
+            let mut txs = vec![];
+            for &len in sizes {
+                // half of the payloads compress well, half do not
+                let data: Vec<u8> = if rng.chance(1, 2) { vec![rng.below(256) as u8; len] } else { (0..len).map(|_| rng.below(256) as u8).collect() };
+                txs.push(
+                    TransactionBuilder::default()
+                        .output(packed::CellOutput::new_builder().build())
+                        .output_data(Bytes::from(data).pack())
+                        .build(),
+                );
+            }
+            let mut bb = BlockBuilder::default().parent_hash(self.hash_of(parent)).number(number).epoch(EpochNumberWithFraction::new(number / 1000, number % 1000, 1000)).timestamp(rng.next()).transactions(txs);
+            if ext {
+                bb = bb.extension(Some(Bytes::from(vec![7u8; 32]).pack()));
+            }
+            let view = bb.build();
+            self.register(out, parent, view)
+        }
+
+        /// replay of a `blk` line: the real block is rebuilt from the stored bytes
+        fn replay_blk(&mut self, out: &mut Out, t: &[&str]) {
+            let id: u64 = t[1].parse().unwrap();
+            let parent: u64 = t[2].parse().unwrap();
+            let cmp = unhex(t[5]);
+            let raw = snap::raw::Decoder::new().decompress_vec(&cmp).expect("blk: snappy");
+            let view = packed::Block::from_compatible_slice(&raw).expect("blk: molecule").into_view();
+            assert_eq!(id, self.blks.len() as u64 + 1, "blk ids must be consecutive");
+            assert_eq!(view.parent_hash(), self.hash_of(parent), "blk: parent id does not match the header");
+            self.register(out, parent, view);
+        }
+
+        fn slot(&mut self, alt: bool) -> &mut Slot {
+            if alt { &mut self.alt } else { &mut self.main }
+        }
+
+        fn pre(alt: bool) -> &'static str {
+            if alt { "alt " } else { "" }
+        }
+
+        fn tip_id(&self, f: &Freezer) -> String {
+            match f.verif_tip_hash() {
+                None => "-".into(),
+                Some(h) => self.by_hash.get(&h).map(|i| i.to_string()).unwrap_or("?".into()),
+            }
+        }
+
+        /// The property on the implementation alone: `number-1` blocks, a prefix of `expect` at
+        /// least `min_keep` long, each retrieved byte-for-byte and decoding to exactly the block
+        /// frozen at that height, parent-linked; nothing at 0 and beyond; tip = the last of them.
+        fn check_chain(&self, out: &mut Out, f: &Freezer, expect: &[u64], min_keep: usize, what: &str) -> usize {
+            let number = f.number();
+            if number < 1 {
+                out.oracle_fail("top-number-zero", what);
+                return 0;
+            }
+            let n = (number - 1) as usize;
+            if n > expect.len() {
+                out.oracle_fail("top-too-many-blocks", &format!("{what} n={n} frozen={}", expect.len()));
+                return n;
+            }
+            if n < min_keep {
+                out.oracle_fail("top-lost-fully-written-blocks", &format!("{what} n={n} fully_written={min_keep}"));
+            }
+            let mut prev: Option<packed::Byte32> = None;
+            for i in 1..=n {
+                let b = &self.blks[expect[i - 1] as usize - 1];
+                match f.retrieve(i as u64) {
+                    Ok(Some(d)) if d == b.raw => {
+                        // decodes to exactly that block, and links to the one below
+                        match packed::BlockReader::from_compatible_slice(&d) {
+                            Ok(r) => {
+                                let h = r.to_entity().header().into_view();
+                                if h.hash() != b.view.hash() {
+                                    out.oracle_fail("top-decoded-hash-mismatch", &format!("{what} height={i}"));
+                                }
+                                if let Some(p) = &prev {
+                                    if &h.parent_hash() != p {
+                                        out.oracle_fail("top-chain-not-parent-linked", &format!("{what} height={i}"));
+                                    }
+                                }
+                                prev = Some(h.hash());
+                            }
+                            Err(_) => out.oracle_fail("top-retrieved-block-does-not-decode", &format!("{what} height={i}")),
+                        }
+                    }
+                    other => {
+                        out.oracle_fail("top-retrieve-mismatch", &format!("{what} height={i} got={:?}", other.map(|o| o.map(|d| d.len())).map_err(|e| e.to_string())));
+                        break;
+                    }
+                }
+            }
+            if !matches!(f.retrieve(0), Ok(None)) {
+                out.oracle_fail("top-retrieve-0-not-none", what);
+            }
+            if !matches!(f.retrieve(number), Ok(None)) {
+                out.oracle_fail("top-retrieve-beyond-not-none", what);
+            }
+            let want_tip = if n == 0 { None } else { Some(self.blks[expect[n - 1] as usize - 1].view.hash()) };
+            if f.verif_tip_hash() != want_tip {
+                out.oracle_fail("top-tip-is-not-last-block", &format!("{what} n={n}"));
+            }
+            n
+        }
+
+        pub fn op_open(&mut self, out: &mut Out, alt: bool) {
+            let (dir, expect, min_keep) = {
+                let s = self.slot(alt);
+                s.f = None;
+                (s.dir.clone(), s.expect.clone(), s.min_keep)
+            };
+            let (max, limit) = (self.max, self.limit);
+            let op = format!("{}open", Self::pre(alt));
+            let r = std::panic::catch_unwind(std::panic::AssertUnwindSafe(|| Freezer::open(dir.clone())));
+            match r {
+                Ok(Ok(f)) => {
+                    f.verif_set_limits(max, limit);
+                    let n = self.check_chain(out, &f, &expect, min_keep, &format!("after {op}"));
+                    out.op(&op, &format!("ok {} {}", f.number(), self.tip_id(&f)));
+                    let s = self.slot(alt);
+                    s.expect.truncate(n);
+                    s.min_keep = s.expect.len();
+                    s.f = Some(f);
+                }
+                Ok(Err(e)) => {
+                    out.oracle_fail("top-open-fails", &format!("{op}: {e}"));
+                    out.op(&op, "err");
+                }
+                Err(_) => {
+                    out.oracle_fail("top-open-panics", &op);
+                    out.op(&op, "err");
+                }
+            }
+            out.count("open");
+        }
+
+        /// `Freezer::freeze`.  The reference for the oracle is computed here from the arguments
+        /// alone (the loop of the property statement: consecutive heights from `number`, each
+        /// block's parent = the stored tip, stop flag / missing block / threshold end it).
+        pub fn op_freeze(&mut self, out: &mut Out, alt: bool, thr: u64, stop: Stop, start: u64, ids: &[u64]) {
+            let op = format!(
+                "{}freeze {} {} {} {}",
+                Self::pre(alt),
+                thr,
+                match stop {
+                    Stop::No => "-".to_string(),
+                    Stop::Pre => "pre".to_string(),
+                    Stop::At(k) => k.to_string(),
+                },
+                start,
+                if ids.is_empty() { "-".to_string() } else { ids.iter().map(|i| i.to_string()).collect::<Vec<_>>().join(",") }
+            );
+            let f = match self.slot(alt).f.take() {
+                Some(f) => f,
+                None => panic!("freeze on a closed slot: {op}"),
+            };
+            let serve = |h: u64| -> Option<u64> {
+                if h < start { return None; }
+                match ids.get((h - start) as usize) { Some(0) | None => None, Some(&id) => Some(id) }
+            };
+            let number0 = f.number();
+            // ---- reference
+            let mut want_new: Vec<u64> = vec![];
+            let mut want_err = false;
+            {
+                let mut tip: Option<packed::Byte32> = self.slot(alt).expect.last().copied().map(|id| self.hash_of(id));
+                let mut stopped = stop == Stop::Pre;
+                let mut h = number0;
+                while h < thr {
+                    if stopped { break; }
+                    let Some(id) = serve(h) else { break };
+                    if let Stop::At(k) = stop { if k == h { stopped = true; } }
+                    let b = &self.blks[id as usize - 1];
+                    if let Some(t) = &tip {
+                        if *t != b.view.parent_hash() { want_err = true; break; }
+                    }
+                    want_new.push(id);
+                    tip = Some(b.view.hash());
+                    h += 1;
+                }
+            }
+            // ---- the real call
+            if stop == Stop::Pre {
+                f.stopped.store(true, Ordering::SeqCst);
+            }
+            let flag = f.stopped.clone();
+            let blks = &self.blks;
+            let r = std::panic::catch_unwind(std::panic::AssertUnwindSafe(|| {
+                f.freeze(thr, |h| {
+                    let id = serve(h)?;
+                    if let Stop::At(k) = stop { if k == h { flag.store(true, Ordering::SeqCst); } }
+                    Some(blks[id as usize - 1].view.clone())
+                })
+            }));
+            f.stopped.store(false, Ordering::SeqCst);
+            let number1 = f.number();
+            let tip = self.tip_id(&f);
+            let ans = match &r {
+                Ok(Ok(map)) => {
+                    let mut ents: Vec<(u64, String, u32)> = map.iter().map(|(h, (n, t))| (*n, self.by_hash.get(h).map(|i| i.to_string()).unwrap_or("?".into()), *t)).collect();
+                    ents.sort();
+                    let l: Vec<String> = ents.iter().map(|(n, id, t)| format!("{id}:{n}:{t}")).collect();
+                    format!("ok {} {} {}", if l.is_empty() { "-".to_string() } else { l.join(",") }, number1, tip)
+                }
+                Ok(Err(_)) => format!("err {} {}", number1, tip),
+                Err(_) => "panic".to_string(),
+            };
+            // ---- oracle on the implementation alone
+            let what = format!("{op} (number before {number0})");
+            if number1 != number0 + want_new.len() as u64 {
+                out.oracle_fail("top-freeze-number", &format!("{what}: number={number1} expected={}", number0 + want_new.len() as u64));
+            }
+            match &r {
+                Ok(Ok(map)) => {
+                    // (an `Ok` where the code as written returns `Err` — the next block does not
+                    // link — is left to the model comparison: nothing wrong was stored)
+                    if want_err && number1 > number0 + want_new.len() as u64 {
+                        out.oracle_fail("top-freeze-accepted-unlinked-block", &what);
+                    }
+                    let mut ok = map.len() == want_new.len();
+                    for (j, id) in want_new.iter().enumerate() {
+                        let b = &self.blks[*id as usize - 1];
+                        if map.get(&b.view.hash()) != Some(&(number0 + j as u64, b.ntx)) {
+                            ok = false;
+                        }
+                    }
+                    if !ok {
+                        out.oracle_fail("top-freeze-result-map", &format!("{what}: got {ans}"));
+                    }
+                }
+                Ok(Err(e)) => {
+                    if !want_err {
+                        out.oracle_fail("top-freeze-fails", &format!("{what}: {e}"));
+                    }
+                }
+                Err(_) => out.oracle_fail("top-freeze-panics", &what),
+            }
+            if want_err || matches!(r, Ok(Err(_))) {
+                self.errs += 1;
+                out.count("freeze-err");
+            }
+            {
+                let s = self.slot(alt);
+                s.expect.extend(want_new.iter());
+                // nothing is assumed durable beyond what the cuts keep: `min_keep` is set by cut/fork
+                s.min_keep = s.expect.len();
+            }
+            let expect = self.slot(alt).expect.clone();
+            self.check_chain(out, &f, &expect, expect.len(), &format!("after {op}"));
+            self.slot(alt).f = Some(f);
+            out.op(&op, &ans);
+            out.count(if alt { "alt-freeze" } else { "freeze" });
+        }
+
+        pub fn op_retrieve(&mut self, out: &mut Out, alt: bool, i: u64) {
+            let op = format!("{}retrieve {}", Self::pre(alt), i);
+            let expect = self.slot(alt).expect.clone();
+            let f = self.slot(alt).f.take().expect("retrieve on a closed slot");
+            let r = std::panic::catch_unwind(std::panic::AssertUnwindSafe(|| f.retrieve(i)));
+            let ans = match &r {
+                Ok(Ok(Some(d))) => format!("some {}", self.by_raw.get(d).map(|x| x.to_string()).unwrap_or("?".into())),
+                Ok(Ok(None)) => "none".to_string(),
+                _ => "err".to_string(),
+            };
+            let want = if i >= 1 && i <= expect.len() as u64 { format!("some {}", expect[i as usize - 1]) } else { "none".to_string() };
+            if ans != want {
+                out.oracle_fail("top-retrieve-mismatch", &format!("{op}: got={ans} want={want}"));
+            }
+            self.slot(alt).f = Some(f);
+            out.op(&op, &ans);
+            out.count("retrieve");
+        }
+
+        pub fn op_truncate(&mut self, out: &mut Out, alt: bool, i: u64) {
+            let op = format!("{}truncate {}", Self::pre(alt), i);
+            let f = self.slot(alt).f.take().expect("truncate on a closed slot");
+            let r = std::panic::catch_unwind(std::panic::AssertUnwindSafe(|| f.truncate(i)));
+            {
+                let s = self.slot(alt);
+                if i >= 1 && (i as usize) < s.expect.len() {
+                    s.expect.truncate(i as usize);
+                }
+                s.min_keep = s.expect.len();
+            }
+            let expect = self.slot(alt).expect.clone();
+            let ans = match r {
+                Ok(Ok(())) => format!("ok {} {}", f.number(), self.tip_id(&f)),
+                Ok(Err(e)) => {
+                    out.oracle_fail("top-truncate-fails", &format!("{op}: {e}"));
+                    "err".to_string()
+                }
+                Err(_) => {
+                    out.oracle_fail("top-truncate-panics", &op);
+                    "err".to_string()
+                }
+            };
+            // files above the new head that the handle LRU had evicted are left behind (never read)
+            if let Some(&(head, _)) = read_index(&self.slot(alt).dir.clone()).last() {
+                let dir = self.slot(alt).dir.clone();
+                let orphans = fs::read_dir(&dir).unwrap().filter_map(|e| e.unwrap().file_name().into_string().ok()).filter_map(|n| n.strip_prefix("blk").and_then(|x| x.parse::<u32>().ok())).filter(|id| *id > head && fs::metadata(dir.join(file_name(*id))).map(|m| m.len() > 0).unwrap_or(false)).count();
+                if orphans > 0 {
+                    out.count("truncate-left-evicted-files-behind");
+                }
+            }
+            if f.number() != expect.len() as u64 + 1 {
+                out.oracle_fail("top-truncate-number", &format!("{op}: number={} expected={}", f.number(), expect.len() + 1));
+            }
+            self.check_chain(out, &f, &expect, expect.len(), &format!("after {op}"));
+            self.slot(alt).f = Some(f);
+            out.op(&op, &ans);
+            out.count("truncate");
+        }
+
+        fn dump_of(&self, f: &Freezer, dir: &Path) -> (String, String) {
+            let number = f.number();
+            let mut items = vec![];
+            for i in 1..number {
+                items.push(match f.retrieve(i) {
+                    Ok(Some(d)) => self.by_raw.get(&d).map(|x| x.to_string()).unwrap_or("?".into()),
+                    Ok(None) => "none".into(),
+                    Err(_) => "err".into(),
+                });
+            }
+            let idx = fs::read(dir.join("INDEX")).unwrap_or_default();
+            let ents: Vec<String> = read_index(dir).iter().map(|(f, o)| format!("{f}:{o}")).collect();
+            let content = format!("n={} tip={} items={}", number, self.tip_id(f), if items.is_empty() { "-".to_string() } else { items.join(";") });
+            let layout = format!("idx={}+{}", if ents.is_empty() { "-".to_string() } else { ents.join(",") }, idx.len() % 12);
+            (content, layout)
+        }
+
+        pub fn op_dump(&mut self, out: &mut Out, alt: bool) {
+            let f = self.slot(alt).f.take().expect("dump on a closed slot");
+            let dir = self.slot(alt).dir.clone();
+            let (c, l) = self.dump_of(&f, &dir);
+            self.slot(alt).f = Some(f);
+            out.op(&format!("{}dump", Self::pre(alt)), &format!("{c} {l}"));
+            out.count("dump");
+        }
+
+        pub fn op_snap(&mut self, out: &mut Out) {
+            copy_dir(&self.main.dir, &self.snap_dir);
+            self.snap_expect = self.main.expect.clone();
+            out.op("snap", "ok");
+        }
+
+        /// how many blocks survive a cut completely (index entry inside `il` bytes, data in an older
+        /// file or inside the first `fl` bytes of file `fid`), read off the INDEX file in `dir`
+        fn survivors(dir: &Path, il: u64, fid: u32, fl: Option<u64>) -> usize {
+            let idx = read_index(dir);
+            let m = fl.unwrap_or(0);
+            let mut n = 0;
+            for (i, &(f, o)) in idx.iter().enumerate().skip(1) {
+                let entry_ok = (i as u64 + 1) * 12 <= il;
+                let data_ok = f < fid || (f == fid && o <= m);
+                if entry_ok && data_ok { n = i; } else { break; }
+            }
+            n
+        }
+
+        pub fn op_fork(&mut self, out: &mut Out, il: u64, fid: u32, fl: Option<u64>) {
+            self.alt.f = None;
+            copy_dir(&self.snap_dir, &self.alt.dir);
+            let keep = Self::survivors(&self.alt.dir, il, fid, fl);
+            apply_cut(&self.alt.dir, il, fid, fl);
+            self.alt.expect = self.snap_expect.clone();
+            self.alt.min_keep = keep.min(self.alt.expect.len());
+            out.op(&format!("fork {} {} {}", il, fid, cut_str(fl)), "ok");
+            self.forks += 1;
+            out.count("fork");
+        }
+
+        pub fn op_cut(&mut self, out: &mut Out, il: u64, fid: u32, fl: Option<u64>) {
+            self.main.f = None;
+            let keep = Self::survivors(&self.main.dir, il, fid, fl);
+            apply_cut(&self.main.dir, il, fid, fl);
+            self.main.min_keep = keep.min(self.main.expect.len());
+            out.op(&format!("cut {} {} {}", il, fid, cut_str(fl)), "ok");
+            out.count("cut");
+        }
+
+        /// "the final content equals the crash-free run's content": alt (crashed, re-opened,
+        /// frozen again) against main (never crashed)
+        pub fn op_same(&mut self, out: &mut Out) {
+            let fa = self.alt.f.take().expect("same: alt closed");
+            let fm = self.main.f.take().expect("same: main closed");
+            let (ca, _) = self.dump_of(&fa, &self.alt.dir.clone());
+            let (cm, _) = self.dump_of(&fm, &self.main.dir.clone());
+            self.alt.f = Some(fa);
+            self.main.f = Some(fm);
+            let same = ca == cm;
+            if !same {
+                out.oracle_fail("top-crash-then-freeze-differs-from-crash-free-run", &format!("alt: {ca} main: {cm}"));
+            }
+            out.op("same", if same { "same" } else { "diff" });
+            out.count("same");
+        }
+
+        pub fn close(&mut self) {
+            self.main.f = None;
+            self.alt.f = None;
+        }
+    }
+
+    /// the cuts worth trying between two states of a directory (`before` = its index entries at the
+    /// last point known durable, the directory itself = the state the crash interrupts)
+    fn cut_points(rng: &mut Rng, dir: &Path, before: &[(u32, u64)], extra: usize) -> (Vec<u64>, Vec<Option<u64>>, u32, bool) {
+        let after = read_index(dir);
+        let idx_before = before.len() as u64 * 12;
+        let idx_after = after.len() as u64 * 12;
+        let (head_before, head_len_before) = *before.last().unwrap();
+        let (head, _) = *after.last().unwrap();
+        let head_len = fs::metadata(dir.join(file_name(head))).map(|m| m.len()).unwrap_or(0);
+        let rolled = head != head_before;
+        let lo = if rolled { 0 } else { head_len_before.min(head_len) };
+        let mut idx_lens: Vec<u64> = vec![idx_before, idx_after];
+        let mut b = idx_before;
+        while b <= idx_after {
+            for d in [0i64, -1, 5] {
+                let v = b as i64 + d;
+                if v >= idx_before as i64 && v <= idx_after as i64 {
+                    idx_lens.push(v as u64);
+                }
+            }
+            b += 12;
+        }
+        let mut data_lens: Vec<Option<u64>> = vec![Some(lo), Some(head_len)];
+        for &(f, o) in after.iter().skip(before.len()) {
+            if f == head {
+                for d in [0i64, -1, 1] {
+                    let v = o as i64 + d;
+                    if v >= lo as i64 && v <= head_len as i64 {
+                        data_lens.push(Some(v as u64));
+                    }
+                }
+            }
+        }
+        for _ in 0..extra {
+            data_lens.push(Some(rng.range(lo, head_len)));
+            idx_lens.push(rng.range(idx_before, idx_after));
+        }
+        if rolled {
+            data_lens.push(None);
+        }
+        idx_lens.sort();
+        idx_lens.dedup();
+        data_lens.sort();
+        data_lens.dedup();
+        (idx_lens, data_lens, head, rolled)
+    }
+
+    /// a list of `k` fresh blocks on top of `parent` for heights `h0..`, with optional defects
+    #[allow(clippy::too_many_arguments)]
+    fn grow(sim: &mut Sim, out: &mut Out, rng: &mut Rng, mut parent: u64, h0: u64, k: u64, big: usize, defect: u64) -> Vec<u64> {
+        let mut ids = vec![];
+        let bad_at = if k > 0 { rng.below(k) } else { 0 };
+        for j in 0..k {
+            let ntx = rng.below(3) as usize;
+            let sizes: Vec<usize> = (0..ntx).map(|_| *rng.pick(&[0usize, 10, 60, big])).collect();
+            let mut number = h0 + j;
+            let mut p = parent;
+            match defect {
+                // a broken parent link: the block sits on some other block (or on the pseudo genesis)
+                1 if j == bad_at => {
+                    p = if sim.n_blocks() > 0 && rng.chance(3, 4) { rng.range(0, sim.n_blocks()) } else { 0 };
+                    if p == parent { p = if parent == 0 { sim.n_blocks() } else { 0 }; }
+                }
+                // a header number that is not the height (the freezer does not look at it)
+                3 if j == bad_at => number += 1 + rng.below(3),
+                _ => {}
+            }
+            let ext = rng.chance(1, 5);
+            let id = sim.new_block(out, rng, p, number, &sizes, ext);
+            // a missing block
+            if defect == 2 && j == bad_at { ids.push(0); } else { ids.push(id); }
+            parent = id;
+        }
+        ids
+    }
+
+    fn run_case(out: &mut Out, rng: &mut Rng, base: &Path, n_ops: usize, extra_cuts: usize) {
+        let max = *rng.pick(&[150u64, 400, 700, 1200, 3000]);
+        let limit = *rng.pick(&[2usize, 2, 3, 256]);
+        let big = *rng.pick(&[100usize, 300, 600]);
+        out.begin_case(&format!("top max={max} lru={limit}"));
+        out.op(&format!("cfg {max}"), "ok");
+        let mut sim = Sim::new(base, max, limit);
+        sim.op_open(out, false);
+        let mut shape: Vec<String> = vec![];
+        for _ in 0..n_ops {
+            if !sim.main_open() {
+                break;
+            }
+            let expect = sim.main_expect().to_vec();
+            let l = expect.len() as u64;
+            let tip = expect.last().copied().unwrap_or(0);
+            match rng.below(20) {
+                0..=8 => {
+                    // freeze a new stretch on the tip — interrupted, crashed at every sampled cut
+                    // and continued on a fork, then completed crash-free on the main freezer
+                    let k = rng.range(1, 5);
+                    let defect = match rng.below(10) { 0..=1 => 1, 2 => 2, 3 => 3, _ => 0 };
+                    let mut ids = grow(&mut sim, out, rng, tip, l + 1, k, big, defect);
+                    // sometimes the source also serves (again) the heights already frozen
+                    let start = if rng.chance(1, 4) && l > 0 {
+                        let s = rng.range(1, l);
+                        let mut v: Vec<u64> = expect[(s - 1) as usize..].to_vec();
+                        v.append(&mut ids);
+                        ids = v;
+                        s
+                    } else {
+                        l + 1
+                    };
+                    let end = l + 1 + k;
+                    let thr = match rng.below(6) { 0 => end + rng.range(1, 3), 1 => rng.range(l + 1, end), _ => end };
+                    let before = read_index(sim.main_dir());
+                    let (thr1, stop1) = match rng.below(5) {
+                        0 => (thr, Stop::At(rng.range(l + 1, l + k))),
+                        1 => (rng.range(l.max(1), thr), Stop::No),
+                        2 if rng.chance(1, 3) => (thr, Stop::Pre),
+                        _ => (thr, Stop::No),
+                    };
+                    sim.op_freeze(out, false, thr1, stop1, start, &ids);
+                    sim.op_snap(out);
+                    let (idx_lens, data_lens, head, rolled) = cut_points(rng, sim.snap_dir(), &before, extra_cuts);
+                    if rolled {
+                        sim.rollovers += 1;
+                        out.count("freeze-rollover");
+                    }
+                    // the crash-free run
+                    sim.op_freeze(out, false, thr, Stop::No, start, &ids);
+                    // crash at the sampled cuts, re-open, freeze again: same content
+                    let mut pairs: Vec<(u64, Option<u64>)> = vec![];
+                    for &il in &idx_lens {
+                        for &dl in &data_lens {
+                            pairs.push((il, dl));
+                        }
+                    }
+                    rng.shuffle(&mut pairs);
+                    let budget = 6 + extra_cuts * 3;
+                    for &(il, dl) in pairs.iter().take(budget) {
+                        sim.op_fork(out, il, head, dl);
+                        sim.op_open(out, true);
+                        if sim.alt_open() {
+                            sim.op_freeze(out, true, thr, Stop::No, start, &ids);
+                            sim.op_same(out);
+                            if rng.chance(1, 4) {
+                                sim.op_dump(out, true);
+                            }
+                        }
+                    }
+                    shape.push(format!("f{k}d{defect}"));
+                    // now and then the main freezer itself crashes (anywhere since `before`)
+                    if rng.chance(1, 4) {
+                        let (il2, dl2, head2, _) = cut_points(rng, sim.main_dir(), &before, 2);
+                        let il = *rng.pick(&il2);
+                        let dl = *rng.pick(&dl2);
+                        sim.op_cut(out, il, head2, dl);
+                        sim.op_open(out, false);
+                        shape.push("X".into());
+                    }
+                }
+                9..=11 => {
+                    // truncate (all edges), then usually freeze another branch from there
+                    let i = match rng.below(6) { 0 => 0, 1 => l, 2 => l + 1, 3 => l.saturating_sub(1), _ => rng.range(0, l + 1) };
+                    sim.op_truncate(out, false, i);
+                    shape.push(format!("t{i}"));
+                    let expect = sim.main_expect().to_vec();
+                    let l2 = expect.len() as u64;
+                    if rng.chance(2, 3) {
+                        let k = rng.range(1, 4);
+                        // a real fork: new blocks on the kept tip; or (defect) blocks of a branch
+                        // that does not link to it
+                        let on = if rng.chance(1, 5) && l2 >= 2 { expect[l2 as usize - 2] } else { expect.last().copied().unwrap_or(0) };
+                        let ids = grow(&mut sim, out, rng, on, l2 + 1, k, big, 0);
+                        sim.op_freeze(out, false, l2 + 1 + k, Stop::No, l2 + 1, &ids);
+                        shape.push(format!("b{k}"));
+                    }
+                }
+                12..=14 => {
+                    sim.op_retrieve(out, false, rng.range(0, l + 2));
+                    if l > 2 {
+                        // and an old one, from a file that is not the head (a cached or evicted handle)
+                        sim.op_retrieve(out, false, rng.range(1, 2));
+                    }
+                }
+                15..=16 => {
+                    sim.op_open(out, false);
+                    shape.push("o".into());
+                }
+                17 => {
+                    // threshold at or below number: nothing happens
+                    sim.op_freeze(out, false, rng.range(0, l + 1), Stop::No, 1, &expect);
+                }
+                _ => sim.op_dump(out, false),
+            }
+        }
+        if sim.main_open() {
+            sim.op_dump(out, false);
+        }
+        if sim.rollovers > 0 && sim.forks > 0 {
+            out.nontrivial(format!("max={max} lru={limit} {}", shape.join(",")));
+        }
+        sim.close();
+    }
+
+    fn parse_cut(t: &[&str]) -> (u64, u32, Option<u64>) {
+        (t[1].parse().unwrap(), t[2].parse().unwrap(), if t[3] == "rm" { None } else { Some(t[3].parse().unwrap()) })
+    }
+
+    fn replay_case(out: &mut Out, base: &Path, ops: &[String]) {
+        let mut sim: Option<Sim> = None;
+        for line in ops {
+            let mut t: Vec<&str> = line.split_whitespace().collect();
+            let alt = t[0] == "alt";
+            if alt {
+                t.remove(0);
+            }
+            match t[0] {
+                "case" => {
+                    out.begin_case(&t[2..].join(" "));
+                    // the LRU capacity is not part of the protocol: it is carried by the label
+                    continue;
+                }
+                "cfg" => {
+                    let limit = ops.first().and_then(|l| l.split_whitespace().find_map(|w| w.strip_prefix("lru=")).and_then(|v| v.parse().ok())).unwrap_or(2usize);
+                    sim = Some(Sim::new(base, t[1].parse().unwrap(), limit));
+                    out.op(line, "ok");
+                    continue;
+                }
+                _ => {}
+            }
+            let s = sim.as_mut().expect("cfg first");
+            match t[0] {
+                "blk" => s.replay_blk(out, &t),
+                "open" => s.op_open(out, alt),
+                "freeze" => {
+                    let stop = match t[2] { "-" => Stop::No, "pre" => Stop::Pre, k => Stop::At(k.parse().unwrap()) };
+                    let ids: Vec<u64> = if t[4] == "-" { vec![] } else { t[4].split(',').map(|x| x.parse().unwrap()).collect() };
+                    s.op_freeze(out, alt, t[1].parse().unwrap(), stop, t[3].parse().unwrap(), &ids);
+                }
+                "retrieve" => s.op_retrieve(out, alt, t[1].parse().unwrap()),
+                "truncate" => s.op_truncate(out, alt, t[1].parse().unwrap()),
+                "dump" => s.op_dump(out, alt),
+                "snap" => s.op_snap(out),
+                "fork" => {
+                    let (il, fid, fl) = parse_cut(&t);
+                    s.op_fork(out, il, fid, fl);
+                }
+                "cut" => {
+                    let (il, fid, fl) = parse_cut(&t);
+                    s.op_cut(out, il, fid, fl);
+                }
+                "same" => s.op_same(out),
+                _ => panic!("bad replay op {line}"),
+            }
+        }
+        if let Some(s) = sim.as_mut() {
+            s.close();
+        }
+    }
+
+    /// Hand-written boundary histories; `vh-core C09 top scenarios` prints them as op lines, which
+    /// is how corpus/C09/top-*.ops were produced (real block bytes cannot be typed by hand).
+    fn scenarios(out: &mut Out, base: &Path) {
+        let mut rng = Rng::new(9);
+        let rng = &mut rng;
+        // 1. an empty freezer has no tip: block 1 is taken whatever its parent is; the next block
+        //    must link to it; truncate guards (0, number-2, number-1, number) are no-ops
+        out.begin_case("top max=400 lru=2 first block unchecked, link check from the second, truncate no-op edges");
+        out.op("cfg 400", "ok");
+        let mut s = Sim::new(base, 400, 2);
+        s.op_open(out, false);
+        let x = s.new_block(out, rng, 0, 7, &[10], false);
+        let a = s.new_block(out, rng, x, 1, &[60], false);
+        let bad = s.new_block(out, rng, 0, 2, &[], false);
+        let b = s.new_block(out, rng, a, 2, &[300], true);
+        let c = s.new_block(out, rng, b, 3, &[], false);
+        s.op_freeze(out, false, 3, Stop::No, 1, &[a, bad]);
+        s.op_freeze(out, false, 3, Stop::No, 1, &[a, b, c]);
+        s.op_freeze(out, false, 4, Stop::No, 1, &[a, b, c]);
+        for i in [0u64, 3, 4, 2] {
+            s.op_truncate(out, false, i);
+        }
+        s.op_truncate(out, false, 1);
+        s.op_freeze(out, false, 3, Stop::No, 2, &[bad]);
+        s.op_freeze(out, false, 3, Stop::No, 2, &[b]);
+        s.op_open(out, false);
+        s.op_dump(out, false);
+        s.close();
+        // 2. truncate across data files with evicted handles, a stale branch, then the other branch
+        out.begin_case("top max=400 lru=2 truncate across files, stale branch refused, other branch frozen");
+        out.op("cfg 400", "ok");
+        let mut s = Sim::new(base, 400, 2);
+        s.op_open(out, false);
+        let mut ids = vec![];
+        let mut p = 0;
+        for h in 1..=6u64 {
+            p = s.new_block(out, rng, p, h, &[if h % 2 == 0 { 300 } else { 10 }], false);
+            ids.push(p);
+        }
+        s.op_freeze(out, false, 7, Stop::No, 1, &ids);
+        s.op_retrieve(out, false, 1);
+        s.op_retrieve(out, false, 3);
+        s.op_truncate(out, false, 3);
+        s.op_dump(out, false);
+        // block 5 of the old branch at height 4: its parent is old block 4, not the tip
+        s.op_freeze(out, false, 6, Stop::No, 4, &[ids[4], ids[5]]);
+        let n4 = s.new_block(out, rng, ids[2], 4, &[300], false);
+        let n5 = s.new_block(out, rng, n4, 5, &[300], false);
+        s.op_freeze(out, false, 6, Stop::No, 4, &[n4, n5]);
+        for i in 1..=6 {
+            s.op_retrieve(out, false, i);
+        }
+        s.op_open(out, false);
+        s.op_dump(out, false);
+        s.close();
+        // 3. a freeze stopped by the flag, crashed right at a rollover (index entry on disk, new head
+        //    file missing / short / complete), re-opened, continued
+        out.begin_case("top max=700 lru=3 stop flag, crash at a rollover, freeze continues from the re-opened number");
+        out.op("cfg 700", "ok");
+        let mut s = Sim::new(base, 700, 3);
+        s.op_open(out, false);
+        let mut ids = vec![];
+        let mut p = 0;
+        for h in 1..=5u64 {
+            p = s.new_block(out, rng, p, h, &[300], false);
+            ids.push(p);
+        }
+        s.op_freeze(out, false, 2, Stop::No, 1, &ids);
+        let before = read_index(s.main_dir());
+        s.op_freeze(out, false, 6, Stop::At(3), 1, &ids);
+        s.op_snap(out);
+        s.op_freeze(out, false, 6, Stop::No, 1, &ids);
+        let after = read_index(s.snap_dir());
+        let (head, hoff) = *after.last().unwrap();
+        let il_full = after.len() as u64 * 12;
+        for (il, fl) in [(il_full, None), (il_full, Some(0)), (il_full, Some(hoff - 1)), (il_full, Some(hoff)), (il_full - 1, Some(hoff)), (il_full - 12, Some(hoff)), (before.len() as u64 * 12, None), (il_full - 13, Some(3))] {
+            s.op_fork(out, il, head, fl);
+            s.op_open(out, true);
+            s.op_freeze(out, true, 6, Stop::No, 1, &ids);
+            s.op_same(out);
+            s.op_dump(out, true);
+        }
+        s.op_cut(out, il_full, head, None);
+        s.op_open(out, false);
+        s.op_freeze(out, false, 6, Stop::No, 1, &ids);
+        s.op_dump(out, false);
+        s.close();
+    }
+
+    pub fn run(opts: &Opts, out: &mut Out, base: &Path) -> &'static str {
+        if opts.extra.get(1).map(|x| x == "scenarios").unwrap_or(false) {
+            scenarios(out, base);
+            return "scenarios";
+        }
+        if let Some(p) = &opts.replay {
+            let ops = read_replay_ops(p);
+            if super::replay_is_top(&ops) {
+                replay_case(out, base, &ops);
+            }
+            return "replay";
+        }
+        let mut rng = Rng::new(opts.seed ^ 0x70705f746f70);
+        let (cases, n_ops, extra) = if opts.thorough() { (4000 * opts.scale, 24, 4) } else { (400 * opts.scale, 14, 2) };
+        for _ in 0..cases {
+            run_case(out, &mut rng, base, n_ops, extra);
+        }
+        "stream top: random histories on the real ckb_freezer::Freezer (real snappy, real packed blocks built with BlockBuilder: 0-2 transactions, compressible and incompressible payloads, optional extension; max_file_size 150..3000 and handle-LRU capacity 2/3/256 through the verif_set_limits hook): freeze of parent-linked stretches with a broken link / a missing block / a header number that is not the height at a random position, thresholds below, at and beyond the served stretch, stop flag before or during the call, sources that serve already frozen heights again; every freeze is interrupted (threshold or stop flag), snapshotted, completed, and the snapshot is cut at sampled (index length, head-file length | missing) pairs between the pre-freeze and the snapshot sizes, re-opened with Freezer::open and frozen again to the same threshold (content compared with the crash-free run); truncate at every edge followed by freezing another branch; re-opens; destructive crashes of the main freezer. Non-trivial iff the case has a data-file rollover inside a freeze and at least one crash fork; distinct by (max, lru, op shape)"
+    }
 }
